@@ -835,8 +835,13 @@ def _check_constants(ctx, rep):
         for p_ in parents(dl):
             if isinstance(p_, ast.If) and guard is None and any(dl is x for b in p_.body for x in ast.walk(b)):
                 guard = unparse(p_.test).replace(" ", "")
+            if isinstance(p_, ast.IfExp) and guard is None and any(dl is x for x in ast.walk(p_.body)):
+                guard = unparse(p_.test).replace(" ", "")
             if isinstance(p_, ast.For):
                 loop = p_
+                break
+            if isinstance(p_, (ast.ListComp, ast.GeneratorExp)) and len(p_.generators) == 1 and not p_.generators[0].ifs:
+                loop = p_.generators[0]
                 break
         lv = None
         if loop is not None and isinstance(loop.iter, ast.Call) and dotted(loop.iter.func) == "enumerate" and isinstance(loop.target, ast.Tuple) \
